@@ -471,7 +471,7 @@ def run_probes(res, tier, rng, focus, cases_override=None):
         for label, case in (cases_override or probe_cases(rng, tier)):
             try:
                 trs, r = collect(dassh, label, case, str(d / label),
-                                 temps=(2 if tier == 'quick' else 4))
+                                 temps=(3 if tier == 'quick' else 5))
             except MachineryError:
                 raise
             except BaseException as e:
